@@ -1,13 +1,18 @@
 /-!
 # C18 — convolution, kernels, special-function approximations (`pewlib.process.convolve`) — partial
 
-Everything here is exact arithmetic over `Rat`: the pad-mode convolution, the series division that
-the frequency-domain deconvolution computes when nothing wraps, `linspace`, normalisation by the
-sum, the rational error-function approximation, the polynomial-with-recursion gamma approximation
-and the triangular density — these parts of the code are rational functions of their inputs and are
-modelled as coded.  The densities built from `exp`/`log`/real powers, `erfinv` (log1p, sqrt, π) and
-the *accuracy* of the approximations against the true transcendental functions are not modelled;
-the harness validates those numerically (see `harness/c18.py`).
+Exact arithmetic over `Rat`: the pad-mode convolution, the series division that the frequency-domain
+deconvolution computes when nothing wraps, Python's slice `[: len c − len psf − 1]` (negative stops included),
+`linspace`, normalisation by the sum and the stacking into (x, weight) rows, the rational error-function
+approximation, the polynomial-with-recursion gamma approximation and the triangular density — these parts of
+the code are rational functions of their inputs and are modelled as coded.
+
+The other eight kernel generators are modelled as coded *around* `exp`, `log`, real powers and `sqrt(2π)`
+(`Special`: these are parameters with values in any type with the field operations): the density formulas, the
+axis, the evaluation of the density on it, the division by the sum, the stacking (`generatorWith`).  `erfinv` is modelled as coded around its transcendental pieces (`erfinvWith`: π, log1p
+and sqrt are parameters, `Transc`).  The *accuracy* of the approximations against the true transcendental
+functions is not modelled; the harness validates it numerically (see `harness/c18.py`).  Positivity of the
+eight densities is proved from positivity of `exp` and of real powers (`PewTheorems/C18.lean`).
 -/
 namespace Pew.Convolve
 
@@ -53,22 +58,33 @@ def seriesDiv (c psf : List Rat) : Nat → List Rat
     q ++ [(at0 c r - ((List.range psf.length).map (fun j =>
       if 1 ≤ j ∧ j ≤ r then at0 psf j * at0 q (r - j) else 0)).sum) / at0 psf 0]
 
-/-- `np.trim_zeros` -/
-def trimZeros (l : List Rat) : List Rat :=
-  ((l.dropWhile (· == 0)).reverse.dropWhile (· == 0)).reverse
+/-- `1 << (n - 1).bit_length()`: the smallest power of two ≥ n for n ≥ 1 (and 2 for n = 0, because
+`(-1).bit_length() = 1`) -/
+def nextPow2 (n : Nat) : Nat := if n = 0 then 2 else if n = 1 then 1 else 2 ^ (Nat.log2 (n - 1) + 1)
 
-/-- `1 << (n - 1).bit_length()` for n ≥ 1: the smallest power of two ≥ n -/
-def nextPow2 (n : Nat) : Nat := if n ≤ 1 then 1 else 2 ^ (Nat.log2 (n - 1) + 1)
+/-- Python's `l[:k]` for any integer `k`: the first `k` items when `k ≥ 0`, all but the last `−k` items when
+`k < 0`, both clamped to the list -/
+def pySliceTo {α : Type} (l : List α) (k : Int) : List α :=
+  if 0 ≤ k then l.take k.toNat else l.take (l.length - (-k).toNat)
 
-/-- `deconvolve(c, psf, mode="valid")` -/
+/-- `deconvolve(c, psf, mode="valid")`: `np.real(y)[: c.size - psf.size - 1]` with `y` the `r` coefficients of
+the quotient (no `np.trim_zeros` since /repo 5e4648b: an exactly zero sample is part of the signal) -/
 def deconvolve (c psf : List Rat) : List Rat :=
   let r := nextPow2 (max c.length psf.length)
-  (trimZeros (seriesDiv c psf r)).take (c.length - psf.length - 1)
+  pySliceTo (seriesDiv c psf r) ((c.length : Int) - (psf.length : Int) - 1)
 
 /-- `deconvolve(c, psf, mode="same")`: `np.hstack((rec, c[rec.size:]))` -/
 def deconvolveSame (c psf : List Rat) : List Rat :=
   let rec_ := deconvolve c psf
   rec_ ++ c.drop rec_.length
+
+/-- the quotient `c / psf` has fewer than `r` coefficients: the product of its first `r` coefficients with
+`psf` is `c` again (trailing zeros aside).  Then, and only then, the trusted statement "the FFT quotient is the
+series quotient" applies; the driver reports this for every case. -/
+def quotientTerminates (c psf : List Rat) : Bool :=
+  let r := nextPow2 (max c.length psf.length)
+  let q := seriesDiv c psf r
+  (List.range (r + psf.length)).all (fun t => fullConvAt q psf t == at0 c t)
 
 /-! ## linspace and normalisation -/
 
@@ -79,6 +95,16 @@ def linspace (a b : Rat) (n : Nat) : List Rat :=
 
 /-- `y / y.sum()` -/
 def normalise (y : List Rat) : List Rat := y.map (· / y.sum)
+
+/-- `y / y.sum()` for values in any type with `+`, `0`, `/` (the real-valued densities) -/
+def normaliseK {K : Type} [Add K] [Zero K] [Div K] (y : List K) : List K := y.map (· / y.sum)
+
+/-- `np.stack((x, w), axis=1)`: one row `[x_i, w_i]` per axis point -/
+def stackCols {K : Type} (x : List Rat) (w : List K) : List (Rat × K) := x.zip w
+
+/-- the common body of the nine generators: `y = pdf(x); np.stack((x, y / y.sum()), axis=1)` -/
+def kernelWith {K : Type} [Add K] [Zero K] [Div K] (axis : List Rat) (pdf : Rat → K) : List (Rat × K) :=
+  stackCols axis (normaliseK (axis.map pdf))
 
 /-! ## error function (Abramowitz–Stegun 7.1.27 as coded) -/
 
@@ -94,9 +120,25 @@ def erfSum (x : Rat) : Rat :=
 /-- `sign * (1 - 1 / (1 + sum(|x|)) ** 4)` -/
 def erfApprox (x : Rat) : Rat := sgn x * (1 - 1 / (1 + erfSum (absR x)) ^ 4)
 
-/-- shape of the inverse error function approximation: `sign(x) * g(x * x)` (g is built from
-log1p, sqrt and π and is not modelled) -/
-def erfinvShape (g : Rat → Rat) (x : Rat) : Rat := sgn x * g (x * x)
+/-! ## inverse error function (Winitzki, as coded, around its transcendental pieces) -/
+
+/-- the pieces of `erfinv` that are not rational functions, as parameters: the embedding of the float
+constants, π, `np.log1p` (applied to the rational `-x * x`) and `np.sqrt` -/
+structure Transc (K : Type) where
+  ofRat : Rat → K
+  pi : K
+  log1p : Rat → K
+  sqrt : K → K
+
+/-- `erfinv(x)` as coded:
+`sign = np.sign(x); l = np.log1p(-x * x); tt1 = 2.0 / (np.pi * 0.14) + 0.5 * l; tt2 = 1.0 / 0.14 * l;`
+`sign * np.sqrt(-tt2 / (tt1 + np.sqrt(tt1 * tt1 - tt2)))` -/
+def erfinvWith {K : Type} [Add K] [Sub K] [Mul K] [Div K] [Neg K] (T : Transc K) (x : Rat) : K :=
+  let sign := T.ofRat (sgn x)
+  let l := T.log1p (-x * x)
+  let tt1 := T.ofRat 2 / (T.pi * T.ofRat (14 / 100)) + T.ofRat (1 / 2) * l
+  let tt2 := T.ofRat 1 / T.ofRat (14 / 100) * l
+  sign * T.sqrt (-tt2 / (tt1 + T.sqrt (tt1 * tt1 - tt2)))
 
 /-! ## gamma function (Abramowitz–Stegun 6.1.36 polynomial with recursion, as coded) -/
 
@@ -140,8 +182,104 @@ def axisPos (size : Nat) (scale shift : Rat) : List Rat :=
 def axisUnit (size : Nat) (scale shift : Rat) : List Rat :=
   linspace shift (1 * scale + shift) size
 
-def triangular (size : Nat) (a b scale shift : Rat) : List Rat × List Rat :=
-  let x := axisSym size scale shift
-  (x, normalise (x.map (triangularPdf a b)))
+/-- which of the three axes a generator samples -/
+inductive AxisKind where
+  | unit | pos | sym
+  deriving DecidableEq, Repr
+
+def axisOf : AxisKind → Nat → Rat → Rat → List Rat
+  | .unit => axisUnit
+  | .pos => axisPos
+  | .sym => axisSym
+
+/-- a kernel generator around its density: the axis of its kind, the density on it, the division by the sum,
+the (x, weight) rows -/
+def generatorWith {K : Type} [Add K] [Zero K] [Div K] (kind : AxisKind) (pdf : Rat → K)
+    (size : Nat) (scale shift : Rat) : List (Rat × K) :=
+  kernelWith (axisOf kind size scale shift) pdf
+
+/-- `triangular(size, a, b, scale, shift)`, modelled completely -/
+def triangular (size : Nat) (a b scale shift : Rat) : List (Rat × Rat) :=
+  generatorWith .sym (triangularPdf a b) size scale shift
+
+/-! ## the other eight generators, as coded around `exp`, `log`, real powers and `sqrt(2π)`
+
+The functions that are not rational are parameters (`Special`), with values in any type `K` that has the field
+operations; everything else — which expression is handed to them, the constants, the gamma approximation
+inside `beta_pdf` and `inversegamma_pdf`, the axis, the normalisation — is as coded.  Float expressions whose
+operands are all rational (`-_lambda * x`, `(x - mu) / sigma`, …) stay rational and are embedded once. -/
+
+structure Special (K : Type) where
+  ofRat : Rat → K
+  /-- `np.exp` -/
+  exp : K → K
+  /-- `np.log` -/
+  log : K → K
+  /-- `x ** y` for floats -/
+  rpow : K → K → K
+  /-- `np.abs` on a value that is not rational -/
+  abs : K → K
+  /-- `_s2pi = np.sqrt(2.0 * np.pi)` -/
+  s2pi : K
+
+section densities
+variable {K : Type} [Add K] [Sub K] [Mul K] [Div K] [Neg K] (S : Special K)
+
+/-- `_lambda * np.exp(-_lambda * x)` -/
+def exponentialPdf (lam x : Rat) : K := S.ofRat lam * S.exp (S.ofRat (-lam * x))
+
+/-- `(1.0 / (2.0 * b)) * np.exp(-np.abs(x - mu) / b)` -/
+def laplacePdf (b mu x : Rat) : K := S.ofRat (1 / (2 * b)) * S.exp (S.ofRat (-absR (x - mu) / b))
+
+/-- `1.0 / (sigma * _s2pi) * np.exp(-0.5 * ((x - mu) / sigma) ** 2)` -/
+def normalPdf (sigma mu x : Rat) : K :=
+  S.ofRat 1 / (S.ofRat sigma * S.s2pi) * S.exp (S.ofRat (-(1 / 2) * ((x - mu) / sigma) ^ 2))
+
+/-- `1.0 / (sigma * _s2pi) * np.exp(-0.5 * ((x - mu) / sigma) ** (2 * power))` for an integer `power` -/
+def superGaussianPdf (sigma mu : Rat) (power : Nat) (x : Rat) : K :=
+  S.ofRat 1 / (S.ofRat sigma * S.s2pi) * S.exp (S.ofRat (-(1 / 2) * ((x - mu) / sigma) ^ (2 * power)))
+
+/-- `1.0 / (x * sigma * _s2pi) * np.exp(-0.5 * ((np.log(x) - mu) / sigma) ** 2)` -/
+def lognormalPdf (sigma mu x : Rat) : K :=
+  let t := (S.log (S.ofRat x) - S.ofRat mu) / S.ofRat sigma
+  S.ofRat 1 / (S.ofRat (x * sigma) * S.s2pi) * S.exp (-(S.ofRat (1 / 2)) * (t * t))
+
+/-- `1.0 / (2.0 * b * x) * np.exp(-np.abs(np.log(x) - mu) / b)` -/
+def loglaplacePdf (b mu x : Rat) : K :=
+  S.ofRat (1 / (2 * b * x)) * S.exp (-(S.abs (S.log (S.ofRat x) - S.ofRat mu)) / S.ofRat b)
+
+/-- `((beta**alpha) / gamma(alpha)) * x ** (-alpha - 1.0) * np.exp(-beta / x)`; `gamma` is pewlib's approximation -/
+def inversegammaPdf (alpha beta x : Rat) : K :=
+  (S.rpow (S.ofRat beta) (S.ofRat alpha) / S.ofRat (gammaApprox alpha))
+    * S.rpow (S.ofRat x) (S.ofRat (-alpha - 1)) * S.exp (S.ofRat (-beta / x))
+
+/-- `B = (gamma(alpha) * gamma(beta)) / gamma(alpha + beta); x ** (alpha - 1.0) * (1.0 - x) ** (beta - 1.0) / B` -/
+def betaPdf (alpha beta x : Rat) : K :=
+  S.rpow (S.ofRat x) (S.ofRat (alpha - 1)) * S.rpow (S.ofRat (1 - x)) (S.ofRat (beta - 1))
+    / S.ofRat (gammaApprox alpha * gammaApprox beta / gammaApprox (alpha + beta))
+
+end densities
+
+section generators
+variable {K : Type} [Add K] [Sub K] [Mul K] [Div K] [Neg K] [Zero K] (S : Special K)
+
+def beta (size : Nat) (alpha beta_ scale shift : Rat) : List (Rat × K) :=
+  generatorWith .unit (betaPdf S alpha beta_) size scale shift
+def exponential (size : Nat) (lam scale shift : Rat) : List (Rat × K) :=
+  generatorWith .pos (exponentialPdf S lam) size scale shift
+def inversegamma (size : Nat) (alpha beta_ scale shift : Rat) : List (Rat × K) :=
+  generatorWith .pos (inversegammaPdf S alpha beta_) size scale shift
+def laplace (size : Nat) (b mu scale shift : Rat) : List (Rat × K) :=
+  generatorWith .sym (laplacePdf S b mu) size scale shift
+def loglaplace (size : Nat) (b mu scale shift : Rat) : List (Rat × K) :=
+  generatorWith .pos (loglaplacePdf S b mu) size scale shift
+def lognormal (size : Nat) (sigma mu scale shift : Rat) : List (Rat × K) :=
+  generatorWith .pos (lognormalPdf S sigma mu) size scale shift
+def normal (size : Nat) (sigma mu scale shift : Rat) : List (Rat × K) :=
+  generatorWith .sym (normalPdf S sigma mu) size scale shift
+def superGaussian (size : Nat) (sigma mu : Rat) (power : Nat) (scale shift : Rat) : List (Rat × K) :=
+  generatorWith .sym (superGaussianPdf S sigma mu power) size scale shift
+
+end generators
 
 end Pew.Convolve
